@@ -47,7 +47,7 @@ TABLE = [
      "the suffix counter is bounded by the number of same-path shape groups, far below i32::MAX for any registry that fits in memory"),
     (r"utils::types_equal_inner", "unwrap", r"Option::expect", r"PortableRegistry::resolve\(P\d,P\d\)",
      "W2: compared ids come from the registry itself (entry ids and ids mentioned inside entries)"),
-    (r"GenericsList::\w+", "assert", r"Overflow:Add", r"user@\(P0(@v1::Some\.0)?\.inner\.start_idx\+.*\)",
+    (r"GenericsList::\w+", "assert", r"Overflow:Add", r"user@\(.*\.inner\.start_idx\+.*\)",
      "sums of lengths of in-memory vectors of generic parameters cannot overflow usize"),
     (r"description::type_name_with_type_params", "unwrap", r"Option::unwrap", r"PortableRegistry::resolve\(P1,.*",
      "W2: ids mentioned by a registry entry resolve (closed registry)"),
